@@ -600,6 +600,7 @@ func (vc *VC) execClosureBody(st *State, lit *ast.FuncLit) {
 // ---------- loops ----------
 
 type loopInfo struct {
+	wholeAssigned map[types.Object]bool          // locals assigned as a whole (not only through x[i] = ...)
 	heapBases   map[string]map[types.Object]bool // heap key -> stable base variables written through
 	heapUnknown map[string]bool                  // heap key written through something else
 	ord      int
@@ -614,8 +615,9 @@ type loopInfo struct {
 // syntactic scan of a loop for modified state
 func (vc *VC) scanModified(nodes ...ast.Node) *loopInfo {
 	li := &loopInfo{assigned: map[types.Object]bool{}, heapKeys: map[string]bool{}, globals: map[types.Object]bool{}, ghosts: map[string]bool{},
-		heapBases: map[string]map[types.Object]bool{}, heapUnknown: map[string]bool{}}
+		heapBases: map[string]map[types.Object]bool{}, heapUnknown: map[string]bool{}, wholeAssigned: map[types.Object]bool{}}
 	var markLhs func(e ast.Expr)
+	viaIndex := 0
 	markLhs = func(e ast.Expr) {
 		switch l := e.(type) {
 		case *ast.ParenExpr:
@@ -626,6 +628,9 @@ func (vc *VC) scanModified(nodes ...ast.Node) *loopInfo {
 					li.globals[o] = true
 				} else {
 					li.assigned[o] = true
+					if viaIndex == 0 {
+						li.wholeAssigned[o] = true
+					}
 					if vc.needsBox(o) {
 						li.allHeap = true
 					}
@@ -650,7 +655,9 @@ func (vc *VC) scanModified(nodes ...ast.Node) *loopInfo {
 			}
 			markLhs(l.X)
 		case *ast.IndexExpr:
+			viaIndex++
 			markLhs(l.X)
+			viaIndex--
 			if id, ok := l.X.(*ast.Ident); ok {
 				if o, ok := vc.eng.info.ObjectOf(id).(*types.Var); ok {
 					if src := vc.aliasOf[o]; src != nil {
@@ -698,6 +705,7 @@ func (vc *VC) scanModified(nodes ...ast.Node) *loopInfo {
 					if id, ok := y.X.(*ast.Ident); ok {
 						if o, ok := vc.eng.info.ObjectOf(id).(*types.Var); ok {
 							li.assigned[o] = true
+							li.wholeAssigned[o] = true
 						}
 					}
 				}
@@ -798,9 +806,14 @@ func (vc *VC) loopHead(st *State, li *loopInfo, spec *LoopSpec, pos token.Pos, r
 			continue // declared inside the loop
 		}
 		s := vc.sortOf(o.Type())
+		before := st.locals[o]
 		n := vc.fresh(o.Name(), s)
 		st.locals[o] = n
 		vc.assumeRange(st, Val{S: n, Ty: o.Type(), Sort: s})
+		if _, isSlice := o.Type().Underlying().(*types.Slice); isSlice && !li.wholeAssigned[o] {
+			// only element writes inside the loop: length and backing array identity are preserved
+			vc.assume(st, fmt.Sprintf("(and (= (len_%s %s) (len_%s %s)) (= (org_%s %s) (org_%s %s)))", s, n, s, before, s, n, s, before))
+		}
 	}
 	for o := range li.globals {
 		s := vc.sortOf(o.Type())
@@ -1259,6 +1272,7 @@ func (vc *VC) markWritten(e ast.Expr, li *loopInfo) {
 				li.globals[o] = true
 			} else {
 				li.assigned[o] = true
+				li.wholeAssigned[o] = true
 			}
 		}
 	case *ast.SelectorExpr:
